@@ -539,6 +539,46 @@ namespace kit
     std::stringstream gs(got);
     std::string line;
     while (std::getline(gs, line)) if (line == sig) reproduced = true;
+    if (!reproduced && !s->fresh_process && idx > 0)
+      {
+        // Not reproducible in a pristine process: the failure may depend on what the process did before (process-level state shared between
+        // worlds). Re-run the suite's cases 0..idx in order in ONE fresh process and see whether case idx fails then. Deterministic, no sampling.
+        int hfd[2];
+        if (pipe(hfd) != 0) return 2;
+        fflush(stdout);
+        pid_t hp = fork();
+        if (hp == 0)
+          {
+            close(hfd[0]);
+            Shared::W w{};
+            Ctx ctx;
+            ctx.w = &w;
+            alarm(3000);
+            size_t before = 0;
+            for (uint64_t i = 0; i <= idx; ++i)
+              {
+                before = ctx.replay_violations.size();
+                try { run_one(*s, i, ctx); }
+                catch (const std::exception &e) { ctx.violation("harness/uncaught-exception/" + s->name, "{}"); }
+              }
+            std::string o;
+            for (size_t q = before; q < ctx.replay_violations.size(); ++q) o += ctx.replay_violations[q].first + "\n";
+            (void)!write(hfd[1], o.data(), o.size());
+            _exit(0);
+          }
+        close(hfd[1]);
+        std::string hgot;
+        while ((n = read(hfd[0], buf, sizeof buf)) > 0) hgot.append(buf, static_cast<size_t>(n));
+        int hst = 0;
+        waitpid(hp, &hst, 0);
+        std::stringstream hs(hgot);
+        while (std::getline(hs, line)) if (line == sig) reproduced = true;
+        if (reproduced)
+          {
+            printf("VIOLATION property=%s replay=%s history=cases-0..%llu-of-suite-%s-in-one-process\n", spec.property.c_str(), file.c_str(), static_cast<unsigned long long>(idx), suite.c_str());
+            return 1;
+          }
+      }
     if (reproduced)
       {
         printf("VIOLATION property=%s replay=%s\n", spec.property.c_str(), file.c_str());
